@@ -183,11 +183,11 @@ C5(fam, t, gv) == [fam |-> fam, t |-> t, gv |-> gv]
 FamOLeaf(z) == UNION {{C5("oleaf", t, gv) : gv \in GLeaves, t \in Flat(b)} : b \in OutBases}
 
 GElems(b) ==
-  CASE b = "Int" -> {Num("i1", "int"), Num("i2p32p1", "int64"), Num("f1p5", "float64"), Str("42"), Str("abc"), Bool(TRUE), Null}
+  CASE b = "Int" -> {Num("i1", "int"), Num("i2p32p1", "int64"), Num("f1p5", "float64"), Str("42"), Str("abc"), Bool(TRUE), Null, NilPtr}
     [] b = "Float" -> {Num("f1p5", "float64"), Num("f1e300", "float64"), Num("nan", "float32"), Num("i1", "int"), Str("abc"), Null}
     [] b = "Float64" -> {Num("f1p5", "float32"), Num("pinf", "float64"), Num("i2p53p1", "int64"), Str("abc"), Null}
     [] b = "Int64" -> {Num("i2p63m1", "int64"), Num("i2p63", "uint64"), Num("f1p5", "float64"), Str("abc"), Null}
-    [] b = "String" -> {Str("abc"), Num("i1", "int"), Bool(TRUE), Sym("RED"), [k |-> "other", s |-> "map"], Null}
+    [] b = "String" -> {Str("abc"), Num("i1", "int"), Bool(TRUE), Sym("RED"), [k |-> "other", s |-> "map"], Null, NilPtr}
     [] b = "Boolean" -> {Bool(TRUE), Num("i1", "int32"), Num("i1", "int"), Str("true"), Str("abc"), Null}
     [] b = "ID" -> {Str("abc"), Num("i42", "int"), Num("f1p5", "float64"), Null}
     [] b = "Time" -> {Tim(T1), Str(T1), Str("abc"), Num("i42", "int64"), Null}
